@@ -61,11 +61,12 @@ type PairIn struct {
 }
 
 type Spec struct {
-	ID   int    `json:"id"`
-	Kind string `json:"kind"` // history | genesis
-	Tag  string `json:"tag,omitempty"`
-	Ops  []Op   `json:"ops,omitempty"`
-	Gen  *GenIn `json:"gen,omitempty"`
+	ID     int    `json:"id"`
+	Kind   string `json:"kind"` // history | genesis
+	Tag    string `json:"tag,omitempty"`
+	Ops    []Op   `json:"ops,omitempty"`
+	Gen    *GenIn `json:"gen,omitempty"`
+	Corpus bool   `json:"corpus,omitempty"` // a witness history: every operation is expected to be executed (class 0)
 }
 
 type OpObs struct {
@@ -253,6 +254,7 @@ func (w *World) do1(op Op) OpObs {
 		return errClass(a.XIBCKeeper.PacketKeeper.WriteAcknowledgement(w.ctx(), pk, ack))
 	case "create", "upgrade", "toggle":
 		cs, cons, ci := w.mkStates(op)
+		w.seenCS, w.seenCons = append(w.seenCS, cs), append(w.seenCons, cons)
 		var content govtypes.Content
 		var err error
 		switch op.K {
@@ -509,5 +511,5 @@ func runHistory(res *Result) {
 	}
 	// everything is committed: app/export.go reads the last committed state
 	w.commit(w.A)
-	roundTrip(res, w.A.App, w.ctx(), true)
+	roundTrip(res, w.A.App, w.ctx(), true, w.seenCS, w.seenCons)
 }
